@@ -1,5 +1,4 @@
-(* C10/Leaves3.v -- Huber's masked in-place writes, the default operators, and
-   the summary lemma [leaf_ok] over all leaves. *)
+(* C10/Leaves3.v -- the default operators and the summary lemma [leaf_ok] over all leaves. *)
 From Coq Require Import ZArith Reals Lra Lia List Bool Arith.
 From Verif Require Import Base.Num Base.Vec C10.Model C10.HeapLemmas C10.Leaves C10.Leaves2.
 Import ListNotations.
@@ -10,51 +9,6 @@ Context {T : Type} `{Num T} `{Sqrt T}.
 Notation heap := (heap T).
 Notation val := (list (list T)).
 
-(* entries with mask: c*x, written first; the others are still the ORIGINAL x when the
-   second masked assignment reads them, even when out is x *)
-Lemma huber_alias_flat (f : T -> bool) (c s : T) (X : list T) :
-  let m := map f (map nabs X) in
-  let X1 := where3 m (map (fun u => c * u) X) X in
-  where3 (map negb m) (vmap2 (fun u v => one * u + s * v) X1 (map nsign X1)) X1
-  = map (fun u => if f (nabs u) then c * u else one * u + s * nsign u) X.
-Proof.
-  induction X as [|a X IH]; [reflexivity|].
-  cbn [map where3 hd tl vmap2 negb] in *. destruct (f (nabs a)); cbn [negb]; f_equal; exact IH.
-Qed.
-Lemma huber_sep_flat (f : T -> bool) (c s : T) (X O : list T) :
-  let m := map f (map nabs X) in
-  where3 (map negb m) (vmap2 (fun u v => one * u + s * v) X (map nsign X)) (where3 m (map (fun u => c * u) X) O)
-  = map (fun u => if f (nabs u) then c * u else one * u + s * nsign u) X.
-Proof.
-  revert O; induction X as [|a X IH]; intros O; [reflexivity|].
-  cbn [map where3 hd tl vmap2 negb] in *. destruct (f (nabs a)); cbn [negb]; f_equal; apply IH.
-Qed.
-Lemma huber_alias_val (f : T -> bool) (c s : T) (X : val) :
-  let m := bmask f (e1 nabs X) in
-  let X1 := pwhere m (scal c X) X in
-  pwhere (map (map negb) m) (lin one s X1 (e1 nsign X1)) X1
-  = e1 (fun u => if f (nabs u) then c * u else one * u + s * nsign u) X.
-Proof.
-  induction X as [|a X IH]; [reflexivity|].
-  cbn [bmask e1 scal lin e2 pzip map pwhere hd tl] in *. f_equal; [apply huber_alias_flat | exact IH].
-Qed.
-Lemma huber_sep_val (f : T -> bool) (c s : T) (X O : val) :
-  let m := bmask f (e1 nabs X) in
-  pwhere (map (map negb) m) (lin one s X (e1 nsign X)) (pwhere m (scal c X) O)
-  = e1 (fun u => if f (nabs u) then c * u else one * u + s * nsign u) X.
-Proof.
-  revert O; induction X as [|a X IH]; intros O; [reflexivity|].
-  cbn [bmask e1 scal lin e2 pzip map pwhere hd tl] in *. f_equal; [apply huber_sep_flat | apply IH].
-Qed.
-
-Lemma huber_ok gamma sigma (h : heap) x out : pre h x out ->
-  post h (call_huber gamma sigma x out h) out (pure_huber gamma sigma (get h x)).
-Proof.
-  intros Hpre; split_alias Hpre; unfold call_huber, pure_huber; exec; absorb; finish.
-  - apply (huber_alias_val (fun u => u <=? gamma + sigma)).
-  - apply (huber_sep_val (fun u => u <=? gamma + sigma)).
-Qed.
-
 (* the shape side conditions under which the code accepts its parameters
    (g, element sigma, constants must be elements of the space x lives in) *)
 Definition wf_leaf (n : nat) (l : leaf T) : Prop :=
@@ -62,6 +16,7 @@ Definition wf_leaf (n : nat) (l : leaf T) : Prop :=
   | LL2 _ _ _ _ (Some gv) => length gv = n
   | LL2Sq _ (El sv) (Some _) => length sv = n
   | LCCL2Sq _ (El sv) (Some _) => length sv = n
+  | LCCL1 _ (El sv) (Some _) => length sv = n
   | LCCKLCE _ W => forall v, length (W v) = length v
   | LFun F => forall v, length (F v) = length v
   | LConst c => length c = n
@@ -76,20 +31,21 @@ Proof.
   - apply l2_ok; [destruct g; exact Hwf | exact Hpre].
   - apply ccl2sq_ok; [destruct sigma, g; exact Hwf || exact I | exact Hpre].
   - apply l2sq_ok; [destruct sigma, g; exact Hwf || exact I | exact Hpre].
-  - apply ccl1_ok; exact Hpre.
+  - apply ccl1_ok; [destruct sigma, g; exact Hwf || exact I | exact Hpre].
   - apply ccl1l2_ok; exact Hpre.
   - apply l1_ok; exact Hpre.
   - apply l1l2_ok; exact Hpre.
   - apply linf_ok; exact Hpre.
-  - apply projl1_ok; exact Hpre.
+  - unfold call_cclinf. apply projl1_ok; exact Hpre.
   - apply cckl_ok; exact Hpre.
   - apply ccklce_ok; [exact Hwf | exact Hpre].
   - apply huber_ok; exact Hpre.
-  - split_alias Hpre; run_leaf.
-  - split_alias Hpre; run_leaf.
-  - split_alias Hpre; run_leaf.
-  - split_alias Hpre; run_leaf.
-  - split_alias Hpre; run_leaf.
+  - split_alias Hpre; unfold call_simplex; run_leaf.
+  - apply sumc_ok; exact Hpre.
+  - split_alias Hpre; unfold ip_ScalingOperator; run_leaf.
+  - split_alias Hpre; unfold ip_ZeroOperator; run_leaf.
+  - split_alias Hpre; unfold ip_ConstantOperator; run_leaf.
+  - split_alias Hpre; unfold ip_MultiplyOperator; run_leaf.
   - split_alias Hpre; run_leaf.
   - split_alias Hpre; exec.
     all: absorb1.
@@ -103,7 +59,7 @@ Lemma leaf_pure_length (l : leaf T) n v : wf_leaf n l -> length v = n -> length 
 Proof.
   intros Hwf Hl; destruct l; cbn [leaf_pure wf_leaf] in *;
     unfold pure_box, pure_l2, pure_ccl2sq, pure_l2sq, pure_ccl1, pure_ccl1l2, pure_l1, pure_l1l2, pure_linf,
-      pure_projl1, pure_cckl, pure_huber;
+      pure_projl1, pure_cckl, pure_huber, pure_sumc;
     try (rewrite Hwf; exact Hl);
     repeat match goal with
            | |- context [match ?g with Some _ => _ | None => _ end] => destruct g
